@@ -110,3 +110,96 @@ pub fn run_case(case: &[Vec<Tok>]) -> Vec<Vec<Tok>> {
     lines.extend(loaded);
     lines
 }
+
+/// family 19: the REAL `databroker` binary is started on the document (`--vss <file>`, the code path of
+/// main.rs: read_metadata_file) and what it loaded is read back through kuksa.val.v1 Get("**", all fields).
+///   out: [1] the process refused the file (exited before it served) | [0 n] then, sorted by path,
+///        [503 path kuksa_data_type kuksa_entry_type (0 | 1 value)]          (-88: it neither served nor exited)
+pub fn run_case_binary(case: &[Vec<Tok>]) -> Vec<Vec<Tok>> {
+    use databroker_proto::kuksa::val::v1 as p1;
+    use std::sync::atomic::{AtomicUsize, Ordering};
+    static N: AtomicUsize = AtomicUsize::new(0);
+    let Some(l) = case.first() else { return vec![vec![-1]] };
+    let mut c = Cur::new(l);
+    let Some(text) = c.string() else { return vec![vec![-1]] };
+    let bin = std::env::var("VERIF_DATABROKER_BIN").unwrap_or_else(|_| "/verif/.build/target/debug/databroker".into());
+    let dir = std::env::var("VERIF_WORK_DIR").unwrap_or_else(|_| "/verif/.build/work".into());
+    let file = format!("{}/vssbin_{}_{}.json", dir, std::process::id(), N.fetch_add(1, Ordering::SeqCst));
+    if std::fs::write(&file, text.as_bytes()).is_err() {
+        return vec![vec![-1]];
+    }
+    let port = {
+        let l = std::net::TcpListener::bind("127.0.0.1:0").unwrap();
+        l.local_addr().unwrap().port()
+    };
+    let child = std::process::Command::new(&bin)
+        .args(["--vss", &file, "--address", "127.0.0.1", "--port", &port.to_string(), "--insecure", "--disable-authorization"])
+        .env_remove("KUKSA_DATABROKER_METADATA_FILE")
+        .stdout(std::process::Stdio::null())
+        .stderr(std::process::Stdio::null())
+        .spawn();
+    let Ok(mut child) = child else {
+        let _ = std::fs::remove_file(&file);
+        return vec![vec![-2]];
+    };
+    let rt = rt();
+    let out = rt.block_on(async {
+        let mut channel = None;
+        for _ in 0..400 {
+            if let Ok(Some(_status)) = child.try_wait() {
+                return vec![vec![1]];
+            }
+            match tonic::transport::Channel::from_shared(format!("http://127.0.0.1:{}", port)).unwrap().connect().await {
+                Ok(ch) => {
+                    channel = Some(ch);
+                    break;
+                }
+                Err(_) => tokio::time::sleep(std::time::Duration::from_millis(10)).await,
+            }
+        }
+        let Some(channel) = channel else { return vec![vec![-88]] };
+        let mut client = p1::val_client::ValClient::new(channel);
+        let fields = vec![p1::Field::Value as i32, p1::Field::Metadata as i32];
+        let r = client
+            .get(p1::GetRequest { entries: vec![p1::EntryRequest { path: "**".into(), view: p1::View::All as i32, fields }] })
+            .await;
+        match r {
+            Err(s) => vec![vec![-3, crate::util::code_num(s.code())]],
+            Ok(resp) => {
+                let resp = resp.into_inner();
+                let mut rows: Vec<(String, Vec<Tok>)> = Vec::new();
+                for e in resp.entries {
+                    let mut o = vec![503];
+                    enc_str(&e.path, &mut o);
+                    match &e.metadata {
+                        Some(m) => {
+                            o.push(m.data_type as Tok);
+                            o.push(m.entry_type as Tok);
+                        }
+                        None => {
+                            o.push(-1);
+                            o.push(-1);
+                        }
+                    }
+                    match e.value.as_ref().and_then(|dp| crate::fam_api::from_v1_value(&dp.value)) {
+                        Some(v) => {
+                            o.push(1);
+                            enc_value(&v, &mut o);
+                        }
+                        None => o.push(0),
+                    }
+                    rows.push((e.path.clone(), o));
+                }
+                rows.sort_by(|a, b| a.0.cmp(&b.0));
+                // an empty tree answers 404 (nothing matched): zero signals
+                let mut out = vec![vec![0, rows.len() as Tok]];
+                out.extend(rows.into_iter().map(|r| r.1));
+                out
+            }
+        }
+    });
+    let _ = child.kill();
+    let _ = child.wait();
+    let _ = std::fs::remove_file(&file);
+    out
+}
